@@ -478,7 +478,7 @@ PROPS["C05"] = {
     "note": "Trusted: go/ssa, the executor, z3, the decimal contract model. Outside: close() (builtin machinery), definitions closing recursively below the first level, 'every required field is present' (reported by Validate, not by unification), hidden/definition fields inside the data, regexp patterns, schemas reached through the compiler rather than built as ADT.",
     "technique": "bounded symbolic execution of adt.Vertex.Finalize (closedness: typocheck.go, closed.go, fields.go, constraints.go) on ADT programs with enumerated shape and symbolic integer bounds/values, outcome compared with a membership oracle by z3; bounded symbolic execution of adt.matchPattern / matchPatternValue / BoundValue.validateStr / validateInt / Feature helpers from go/ssa with symbolic label strings and indices; agreement with the oracle decided by z3",
     "bounds": {
-        "quick": "closedness: schemas over a (absent/regular/optional/required with bound <k), pattern, ellipsis; second schema always a definition; data subsets of {a: n, c: 1}; k, n arbitrary in 0..3; pattern trees of depth <= 2 with string operands <= 1 byte and int operands < 10; labels: strings <= 2 bytes or int indices < 10; all 32-bit features",
+        "quick": "closedness: schemas over a (absent/regular/optional/required with bound <k), pattern, ellipsis; second schema always a definition, possibly a second reference to the first one (#S1 twice); data subsets of {a: n, c: 1}; k, n arbitrary in 0..3; pattern trees of depth <= 2 with string operands <= 1 byte and int operands < 10; labels: strings <= 2 bytes or int indices < 10; all 32-bit features",
         "thorough": "closedness: both schemas open or definition, with b?: int and data b as well; string operands <= 2 bytes, labels <= 3 bytes",
     },
     "outside": ["close()", "nested (recursive) closedness", "required-field presence (Validate)", "regexp patterns", "compiler front end"],
@@ -499,8 +499,9 @@ PROPS["C05"] = {
             "harness": ["adt/common.go", "adt/disjunct.go", "adt/closed.go"],
             "apdmodel": True,
             "entries": {
-                "quick": [{"name": "verifHarnessClosedStruct", "params": {"B": 0, "S2DEF": 1}}],
-                "thorough": [{"name": "verifHarnessClosedStruct", "params": {"B": 1, "S2DEF": 0}}],
+                "quick": [{"name": "verifHarnessClosedStruct", "params": {"B": 0, "S2DEF": 1, "SAME": 1}}],
+                "thorough": [{"name": "verifHarnessClosedStruct", "params": {"B": 1, "S2DEF": 0}},
+                             {"name": "verifHarnessClosedStruct", "params": {"B": 0, "S2DEF": 1, "SAME": 1}}],
             },
         },
     ],
